@@ -175,6 +175,13 @@ def run_case(ctx, case):
             n = rng.randint(1, run.r.num_ops)
             for _ in range(n):
                 o, m = run.choose(rng, "random_ready"); run.dispatch(o, m)
+            if case["seed"] % 4 == 3 and mk in run.d.subscribers and idle in run.d.subscribers:
+                # the observers leave, the dispatcher is reset without them, they come back still
+                # carrying the old episode and are reset together with the (already clean) dispatcher
+                run.d.unsubscribe(mk); run.d.unsubscribe(idle)
+                run.d.reset()
+                run.d.subscribe(mk); run.d.subscribe(idle)
+                ctx.count("stale_observers_resubscribed_to_a_clean_dispatcher")
             run.d.reset(); run.r.reset()
             ctx.count("after_reset_histories")
         raiser = None
